@@ -73,9 +73,10 @@ theorem ckks_sub_phase : type_of% @HC.ckks_sub_phase := @HC.ckks_sub_phase
 /-- K1 NEGATE (`ctNegate`): the exact phase is negated modulo Q -/
 theorem ckks_negate_phase : type_of% @HC.ckks_negate_phase := @HC.ckks_negate_phase
 
-/-- K1 MULTIPLY (`ctMultiplyDyadic` = `ckks_multiply`, any sizes n1, n2 in 2..16): the model succeeds, the result has n1 + n2 − 1
-    canonical polynomials (a canonical ciphertext when that is ≤ 16), and its exact phase is the NEGACYCLIC PRODUCT of the exact
-    phases modulo Q: phase(r) ≡ phase(a) ⋆ phase(b).  No noise is added by the tensor product. -/
+/-- K1 MULTIPLY (`ctMultiplyDyadic` = `ckks_multiply`, any sizes n1, n2 in 2..16 with n1 + n2 − 1 ≤ 16 — a larger product is
+    refused by `resize`, in the code and in the model): the model succeeds, the result is a canonical ciphertext of n1 + n2 − 1
+    polynomials, and its exact phase is the NEGACYCLIC PRODUCT of the exact phases modulo Q: phase(r) ≡ phase(a) ⋆ phase(b).
+    No noise is added by the tensor product. -/
 theorem ckks_multiply_phase : type_of% @HC.ckks_multiply_phase := @HC.ckks_multiply_phase
 
 /-- K1 MULTIPLY_PLAIN (`ctMultiplyPlainNtt`): for ANY integer lift `M` of the plaintext polynomial (`c03k_PlainLift`; e.g. the CRT
